@@ -103,3 +103,23 @@ CHECKS["C11"] = {
     ),
     "note": "Wall-clock values and what sinks do with shared immutable values are not decided." + TRUSTED,
 }
+
+CHECKS["C04"] = {
+    "technique": "sibling agreement over the class table (MRO-resolved) + CFG must-pass rules",
+    "text": (
+        "Static agreement rules across every result class: a list-reading wasSuccessful reads every list a failing "
+        "outcome of its class appends to and none a passing outcome appends to, multiplexers use all(); "
+        "TextTestResult's OK/FAILED arm, failure total and sections use wasSuccessful() and the same three lists; the "
+        "exit status is not wasSuccessful() and the runner brackets the run with finally; the outcomes that stop "
+        "under failfast are exactly error/failure/unexpected success in every class that consults failfast and the "
+        "stream trigger set equals the statuses emitted for them; stop/shouldStop/failfast of every adapter resolve "
+        "(through the MRO) to bodies that reach the wrapped results; startTestRun re-initialises every collection "
+        "outcomes append to while failfast/tb_locals survive. Each is a per-call invariant, so consistency over all "
+        "histories and adapter stacks follows by induction."
+    ),
+    "note": (
+        "Summary text layout is not decided. The stream summary's treatment of uxsuccess is the repository's "
+        "documented policy (pinned by its contract tests) and is not demanded. One genuine defect is a recorded "
+        "known finding (ThreadsafeForwardingResult drops failfast set on the wrapper)." + TRUSTED
+    ),
+}
